@@ -522,23 +522,8 @@ inline VResult o_snapshot(const VCase &c) {
     msg = "reading the snapshot back aborts: " + e.msg;
   }
   unlink(snap.c_str());
-  if (!msg.empty()) {
+  if (!msg.empty())
     r.fail(msg);
-    // BufferedCMacIonizeSnapshotDensityFunction.hpp:182-197 tests
-    // (new_top - old_anchor) < new_sides without tolerance; on the identical
-    // box this is fl(fl(a+s)-a) < s, which rounding makes true for many (a,s)
-    bool rounding = false;
-    for (int a = 0; a < 3; ++a) {
-      const volatile double top = f.anchor[a] + f.sides[a];
-      const volatile double avail = top - f.anchor[a];
-      if (avail < f.sides[a])
-        rounding = true;
-    }
-    if (exact6 && rounding &&
-        msg.find("aborts: New simulation box is not inside") !=
-            std::string::npos)
-      r.known = "buffered_reader_same_box_rounding";
-  }
   return r;
 }
 
